@@ -577,13 +577,11 @@ def _apply(op: dict, model: Model, state: dict):  # pylint: disable=too-many-bra
     from sympy.core.parameters import global_parameters  # pylint: disable=import-outside-toplevel
     from symplyphysics.core.symbols import id_generator  # pylint: disable=import-outside-toplevel
     from symplyphysics.core.symbols.symbols import clone_as_indexed  # pylint: disable=import-outside-toplevel
-    ids = id_generator._ids  # pylint: disable=protected-access
+    from .observe import COUNTERS as ids  # pylint: disable=import-outside-toplevel
     k = op["op"]
     f = state["faults"]
     if k == "jump":
-        cur = ids.get(op["prefix"], 0)
-        if op["to"] > cur:
-            ids[op["prefix"]] = op["to"]
+        if ids.jump(op["prefix"], op["to"]):
             f["jump"] += 1
         return "jump"
     if k == "bulk":
@@ -889,7 +887,7 @@ def child_run(job: dict) -> dict:
     collisions = len(displays) - len(set(displays))
     f = state["faults"]
     fired = sum(f.values())
-    ids = id_generator._ids  # pylint: disable=protected-access
+    from .observe import COUNTERS as ids  # pylint: disable=import-outside-toplevel
     digit_class = ",".join(f"{p}{str(ids.get(p, 0))[0]}x{len(str(ids.get(p, 0)))}" for p in ("SYM", "FUN", "QTY", "SYS", "VEC"))
     probes = {
         "display-name collision realised": int(collisions > 0),
